@@ -72,8 +72,13 @@ def kernels_of_cell(job):
     for n in sorted(rslmod.NONES):
         lines.append(dict(what="none", element=list(n)))
     for key, order, nf, r, _ker in items:
+        if r.reg is None and r.sing is None and r.loc is None:
+            # the empty distribution: below the pair threshold a massive class answers EVERY order with it, defined or not
+            lines.append(dict(what="kernel", kind=key[0], pc=key[1], cls=key[2], order=order, nf=nf, ratio=cell.get("ratio", 0), fns=cell["fns"],
+                              resid_milli=0, finite=True, has_sing=False, has_loc=False, empty=True, note="empty distribution"))
+            continue
         w, fin, hs, hl, note = contract(r, xs)
-        lines.append(dict(what="kernel", kind=key[0], pc=key[1], cls=key[2], order=order, nf=nf, ratio=cell.get("ratio", 0),
+        lines.append(dict(what="kernel", kind=key[0], pc=key[1], cls=key[2], order=order, nf=nf, ratio=cell.get("ratio", 0), empty=False,
                           fns=cell["fns"], resid_milli=common.milli(w, TOL), finite=fin, has_sing=hs, has_loc=hl, note=note))
     return lines
 
@@ -129,7 +134,7 @@ def run(ctx):
         seen.add(ln["oid"])
         uniq.append(ln)
         ctx.count(1, nontrivial_key=ln["oid"] if (ln["has_sing"] or ln["has_loc"]) else None)
-    got = {(ln["kind"], ln["pc"], ln["cls"], ln["order"]) for ln in uniq if ln["what"] == "kernel"}
+    got = {(ln["kind"], ln["pc"], ln["cls"], ln["order"]) for ln in uniq if ln["what"] == "kernel" and not ln["empty"]}
     # base classes that no generator names are exempt from coverage (they are covered through their subclasses)
     base_only = {e for e in want if e[2] in ("asy/AsyGluon", "asy/AsySinglet")}
     missing = sorted(want - got - base_only - nones)
